@@ -10,6 +10,7 @@ pub mod c02_batch;
 pub mod c19_http_gate;
 pub mod c13_registry;
 pub mod c14_host_filter;
+pub mod c15_wire_types;
 pub mod c16_params_seq;
 pub mod c20_params_builder;
 
